@@ -82,7 +82,7 @@ Qed.
 
 Lemma nth_close_listed tbl i cs j :
   nth_error (close_listed tbl i cs) j =
-  option_map (fun k => if mem (i + j) tbl then close_conn k else k) (nth_error cs j).
+  option_map (fun k => if mem (i + j) tbl || neg k then close_conn k else k) (nth_error cs j).
 Proof.
   revert i j; induction cs as [|k r IH]; intros i [|j]; cbn; auto.
   - now rewrite Nat.add_0_r.
@@ -96,12 +96,13 @@ Lemma close_conn_closed k : lopen k = false -> close_conn k = k.
 Proof. destruct k; cbn; intros ->; reflexivity. Qed.
 
 Lemma close_listed_same tbl i cs :
-  (forall j k, In (i + j) tbl -> nth_error cs j = Some k -> lopen k = false) ->
+  (forall j k, In (i + j) tbl \/ neg k = true -> nth_error cs j = Some k -> lopen k = false) ->
   close_listed tbl i cs = cs.
 Proof.
   revert i; induction cs as [|k r IH]; intros i H; cbn; auto. f_equal.
-  - destruct (mem i tbl) eqn:M; auto. apply close_conn_closed.
-    apply (H 0 k); [rewrite Nat.add_0_r; now apply mem_In|reflexivity].
+  - destruct (mem i tbl || neg k) eqn:M; auto. apply close_conn_closed.
+    apply (H 0 k); [|reflexivity]. apply orb_true_iff in M as [M|M]; auto.
+    left. rewrite Nat.add_0_r. now apply mem_In.
   - apply IH. intros j k' Hin Hn. apply (H (S j) k'); auto. now rewrite Nat.add_succ_r.
 Qed.
 
@@ -139,12 +140,17 @@ Lemma sumf_close_listed f tbl i cs :
   (forall k, f (close_conn k) = f k) -> sumf f (close_listed tbl i cs) = sumf f cs.
 Proof.
   intros Hf. revert i; induction cs as [|k r IH]; intros i; cbn; auto.
-  rewrite IH. destruct (mem i tbl); [rewrite Hf|]; reflexivity.
+  rewrite IH. destruct (mem i tbl || neg k); [rewrite Hf|]; reflexivity.
 Qed.
 
 Definition b2n (b : bool) : nat := if b then 1 else 0.
 Definition livef (k : conn) : nat := b2n (live (hd k)).
 Definition count_live (cs : list conn) : nat := sumf livef cs.
+(* wait-group slots: running handlers and callbacks under negotiation *)
+Definition wgf (k : conn) : nat := b2n (live (hd k)) + b2n (neg k).
+Definition count_busy (cs : list conn) : nat := sumf wgf cs.
+Definition negotiating_pc (x : spc) : bool :=
+  match x with IRecvId | ICheck | IRegister | ILaunch => true | _ => false end.
 
 (* ---- the invariant --------------------------------------------------------- *)
 
@@ -155,16 +161,20 @@ Definition holding (h : hpc) : bool :=
   match h with HRecv | HGot _ | HDisp _ | HExitClose => true | _ => false end.
 
 Definition dial_side (x : spc) : bool :=
-  match x with IRecvId | ICheck | IRegister | ILaunch => false | _ => true end.
+  match x with IAccept | IRecvId | ICheck | IRegister | ILaunch => false | _ => true end.
 
-Record CInv (cl : bool) (tbl ab : list nat) (c : nat) (k : conn) : Prop := {
+Record CInv (f4 cl : bool) (tbl ab : list nat) (c : nat) (k : conn) : Prop := {
   (* J1 *) ci_j1 : cl = true -> In c tbl -> lopen k = false;
   (* J2 *) ci_j2 : lopen k = true -> setting_up (setup k) = true \/ holding (hd k) = true \/ In c ab;
   ci_shape : match setup k with SetupOk => hd k <> HNone | _ => hd k = HNone end;
   (* a running handler and a set-up between register and launch are in the table *)
   ci_j6 : live (hd k) = true \/ setup k = OLaunch \/ setup k = ILaunch -> In c tbl;
   (* only a set-up that gave up abandons its connection *)
-  ci_ab : In c ab -> setup k = SetupErr }.
+  ci_ab : In c ab -> setup k = SetupErr;
+  (* repair f43: a callback past beginNegotiation is recorded; Stop has closed what is recorded *)
+  ci_neg : f4 = true -> negotiating_pc (setup k) = true -> neg k = true;
+  ci_negc : cl = true -> neg k = true -> lopen k = false;
+  ci_nacc : setup k = IAccept -> neg k = false }.
 
 Definition snd_ok (cs : list conn) (p : npc) : Prop :=
   match p with
@@ -173,18 +183,18 @@ Definition snd_ok (cs : list conn) (p : npc) : Prop :=
   | _ => True
   end.
 
-Record Inv (fx : bool) (s : state) : Prop := {
-  inv_conn : forall c k, nth_error (conns s) c = Some k -> CInv (closed s) (table s) (abandoned s) c k;
+Record Inv (fx : fixes) (s : state) : Prop := {
+  inv_conn : forall c k, nth_error (conns s) c = Some k -> CInv (f43 fx) (closed s) (table s) (abandoned s) c k;
   inv_tbl : forall c, In c (table s) -> c < length (conns s);
   inv_abl : forall c, In c (abandoned s) -> c < length (conns s);
-  (* J3 *) inv_wg : wg s = count_live (conns s);
+  (* J3 *) inv_wg : wg s = count_busy (conns s);
   inv_ret : stop_returned s = true -> closed s = true /\ wg s = 0;
   inv_listen : closed s = true -> listening s = false;
   inv_stops : forall t pc, nth_error (stops s) t = Some pc ->
                 (pc <> SHost -> listening s = false) /\ (pc = SWait \/ pc = SReturned -> closed s = true);
   inv_late : late s = 0;
   inv_crash : crashed s = false;
-  inv_fix : fx = true -> abandoned s = [];
+  inv_fix : f11 fx = true -> abandoned s = [];
   inv_snd : forall t p, nth_error (senders s) t = Some p -> snd_ok (conns s) p }.
 
 Lemma Inv_init fx : Inv fx init.
@@ -198,28 +208,31 @@ Proof.
 Qed.
 
 (* monotonicity of the per-connection invariant in the global parts *)
-Lemma CInv_ab cl tbl ab c0 c k : c <> c0 -> CInv cl tbl ab c k -> CInv cl tbl (c0 :: ab) c k.
+Lemma CInv_ab f4 cl tbl ab c0 c k : c <> c0 -> CInv f4 cl tbl ab c k -> CInv f4 cl tbl (c0 :: ab) c k.
 Proof.
-  intros N [H1 H2 H3 H4 H5]. constructor; auto.
+  intros N [H1 H2 H3 H4 H5 H6 H7 H8]. constructor; auto.
   - intros L. destruct (H2 L) as [|[|]]; auto. right; right; now right.
   - intros [E|E]; [congruence|auto].
 Qed.
 
-Lemma CInv_tbl_add tbl ab c k c0 : CInv false tbl ab c k -> CInv false (tbl ++ [c0]) ab c k.
+Lemma CInv_tbl_add f4 tbl ab c k c0 : CInv f4 false tbl ab c k -> CInv f4 false (tbl ++ [c0]) ab c k.
 Proof.
-  intros [H1 H2 H3 H4 H5]. constructor; auto; try discriminate.
+  intros [H1 H2 H3 H4 H5 H6 H7 H8]. constructor; auto; try discriminate.
   intros H. apply in_or_app. left. auto.
 Qed.
 
-Lemma CInv_tbl_remove f cl tbl ab c k c0 : c <> c0 -> CInv cl tbl ab c k -> CInv cl (remove_swap f tbl c0) ab c k.
+Lemma CInv_tbl_remove f f4 cl tbl ab c k c0 : c <> c0 -> CInv f4 cl tbl ab c k -> CInv f4 cl (remove_swap f tbl c0) ab c k.
 Proof.
-  intros N [H1 H2 H3 H4 H5]. constructor; auto.
+  intros N [H1 H2 H3 H4 H5 H6 H7 H8]. constructor; auto.
   - intros Hc Hin. apply In_remove_swap in Hin. tauto.
   - intros H. apply In_remove_swap. auto.
 Qed.
 
-Lemma live_count_pos cs c k : nth_error cs c = Some k -> live (hd k) = true -> 1 <= count_live cs.
-Proof. intros H L. pose proof (sumf_pos livef _ _ _ H) as P. unfold livef in P at 1. rewrite L in P. exact P. Qed.
+Lemma live_count_pos cs c k : nth_error cs c = Some k -> live (hd k) = true -> 1 <= count_busy cs.
+Proof. intros H L. pose proof (sumf_pos wgf _ _ _ H) as P. unfold wgf in P at 1. rewrite L in P. cbn in P. unfold count_busy. lia. Qed.
+
+Lemma neg_count_pos cs c k : nth_error cs c = Some k -> neg k = true -> 1 <= count_busy cs.
+Proof. intros H L. pose proof (sumf_pos wgf _ _ _ H) as P. unfold wgf in P at 1. rewrite L in P. cbn in P. unfold count_busy. lia. Qed.
 
 Lemma snd_ok_upd cs c k k' p :
   nth_error cs c = Some k -> (dial_side (setup k) = true -> dial_side (setup k') = true) ->
@@ -244,7 +257,7 @@ Lemma snd_ok_close tbl cs p : snd_ok cs p -> snd_ok (close_listed tbl 0 cs) p.
 Proof.
   destruct p as [q|q r|q c1 r|q c1 r|r]; cbn; auto.
   - intros (k1 & H1 & D1). rewrite nth_close_listed, H1. cbn.
-    destruct (mem c1 tbl); eexists; split; eauto.
+    destruct (mem c1 tbl || neg k1); eexists; split; eauto.
   - now rewrite close_listed_length.
 Qed.
 
@@ -270,7 +283,14 @@ Ltac cinv :=
   constructor; cbn; auto;
   try (let Hin := fresh "Hin" in
        intros Hin;
-       match goal with H : In _ _ -> setup _ = SetupErr |- _ => specialize (H Hin); congruence end).
+       match goal with H : In _ _ -> setup _ = SetupErr |- _ => specialize (H Hin); congruence end);
+  try (intros; congruence);
+  try (let F := fresh "F" in
+       intros F _;
+       match goal with
+       | H : _ -> negotiating_pc (setup ?k) = true -> neg ?k = true, E : setup ?k = _ |- _ =>
+           apply H; [exact F|rewrite E; reflexivity]
+       end).
 
 (* ---- preservation --------------------------------------------------------- *)
 
@@ -278,9 +298,9 @@ Ltac cinv :=
 (* the modified connection satisfies its invariant, the others keep theirs *)
 Lemma conn_upd_inv fx s c k k' :
   Inv fx s -> nth_error (conns s) c = Some k ->
-  CInv (closed s) (table s) (abandoned s) c k' ->
+  CInv (f43 fx) (closed s) (table s) (abandoned s) c k' ->
   forall c1 k1, nth_error (upd (conns s) c k') c1 = Some k1 ->
-                CInv (closed s) (table s) (abandoned s) c1 k1.
+                CInv (f43 fx) (closed s) (table s) (abandoned s) c1 k1.
 Proof.
   intros I Hk Hn c1 k1 H1. conn_cases H1; auto. apply (inv_conn _ _ I); auto.
 Qed.
@@ -288,18 +308,18 @@ Qed.
 (* a connection-only update that keeps liveness *)
 Lemma Inv_conn_step fx s c k k' :
   Inv fx s -> nth_error (conns s) c = Some k ->
-  CInv (closed s) (table s) (abandoned s) c k' ->
-  live (hd k') = live (hd k) ->
+  CInv (f43 fx) (closed s) (table s) (abandoned s) c k' ->
+  live (hd k') = live (hd k) -> neg k' = neg k ->
   (dial_side (setup k) = true -> dial_side (setup k') = true) ->
   Inv fx (set_conns s (upd (conns s) c k')).
 Proof.
-  intros I Hk Hn Hl Hd. destruct I as [Ic It Ial Iw Ir Il Is Ila Icr Ifx Isn].
+  intros I Hk Hn Hl Hng Hd. destruct I as [Ic It Ial Iw Ir Il Is Ila Icr Ifx Isn].
   cinv.
   - intros c1 k1 H1. conn_cases H1; auto.
   - intros c1 H1. rewrite upd_length. auto.
   - intros c1 H1. rewrite upd_length. auto.
-  - unfold count_live in *. pose proof (sumf_upd livef _ _ _ k' Hk) as E. unfold livef in E at 2 4.
-    rewrite Hl in E. lia.
+  - unfold count_busy in *. pose proof (sumf_upd wgf _ _ _ k' Hk) as E. unfold wgf in E at 2 4.
+    rewrite Hl, Hng in E. lia.
   - intros t p H. eapply snd_ok_upd; eauto.
 Qed.
 
@@ -308,7 +328,7 @@ Lemma give_up_inv fx s c k :
   hd k = HNone -> (closed s = true -> In c (table s) -> lopen k = false) ->
   Inv fx (give_up fx s c k).
 Proof.
-  intros I Hk Hh Hj1. unfold give_up. destruct fx eqn:Efx.
+  intros I Hk Hh Hj1. unfold give_up. destruct (f11 fx) eqn:Efx.
   - apply Inv_conn_step with (k := k); auto.
     cinv; try discriminate. rewrite Hh. intros [H|[H|H]]; discriminate.
   - destruct I as [Ic It Ial Iw Ir Il Is Ila Icr Ifx Isn].
@@ -320,19 +340,20 @@ Proof.
       * cinv.
         -- intros L. right; right. unfold ab'. rewrite L. now left.
         -- rewrite Hh. intros [H|[H|H]]; discriminate.
+        -- apply (ci_negc _ _ _ _ _ _ (Ic _ _ Hk)).
       * unfold ab'. destruct (lopen k); [apply CInv_ab; auto|]; apply Ic; auto.
     + intros c1 H1. rewrite upd_length. auto.
     + intros c1 H1. rewrite upd_length. unfold ab' in H1.
       destruct (lopen k); auto. destruct H1 as [<-|H1]; auto. eapply nth_error_lt; eauto.
-    + unfold count_live in *. pose proof (sumf_upd livef _ _ _ (set_setup k SetupErr) Hk) as E.
-      unfold livef in E at 2 4. cbn in E. lia.
+    + unfold count_busy in *. pose proof (sumf_upd wgf _ _ _ (set_setup k SetupErr) Hk) as E.
+      unfold wgf in E at 2 4. cbn in E. lia.
     + intros t p H. eapply snd_ok_upd; eauto.
 Qed.
 
 Lemma step_inv fx s a s' : Inv fx s -> step fx s a = Some s' -> Inv fx s'.
 Proof.
   intros I H. pose proof I as [Ic It Ial Iw Ir Il Is Ila Icr Ifx Isn].
-  destruct a as [ |p|p|c|c|t|t|t|t|t|t|t|t|t|c|c|c|c|c v|c|c|c m|c|c|c|c|c|c|c]; cbn [step] in H.
+  destruct a as [ |p|p|c|c|t|t|t|t|t|t|t|t|t|c|c|c|c|c|c|c v|c|c|c m|c|c|c|c|c|c|c]; cbn [step] in H.
   - (* ACallStop *)
     inversion H; subst; clear H. cinv.
     intros t pc Ht. apply nth_app_cases in Ht as [Ht|[_ ->]]; [eauto|].
@@ -350,18 +371,17 @@ Proof.
       * intros Hin. specialize (Ial _ Hin). lia.
     + intros c Hc. rewrite app_length. cbn. specialize (It _ Hc). lia.
     + intros c Hc. rewrite app_length. cbn. specialize (Ial _ Hc). lia.
-    + unfold count_live. rewrite sumf_app. cbn. unfold count_live in Iw. lia.
-    + congruence.
+    + unfold count_busy. rewrite sumf_app. cbn. unfold count_busy in Iw. lia.
     + intros t pc Ht. destruct (Is _ _ Ht) as [A B]. split; auto. intros N. specialize (A N). discriminate.
     + intros t q Ht. apply snd_ok_app. eauto.
   - (* APeerClose *)
     destruct (nth_error (conns s) c) as [k|] eqn:Ek; [|discriminate]. inversion H; subst; clear H.
     apply Inv_conn_step with (k := k); auto.
-    destruct (Ic _ _ Ek) as [H1 H2 H3 H4 H5]. cinv.
+    destruct (Ic _ _ Ek) as [H1 H2 H3 H4 H5 H6 H7 H8]. cinv.
   - (* APeerCloseBoth *)
     destruct (nth_error (conns s) c) as [k|] eqn:Ek; [|discriminate]. inversion H; subst; clear H.
     apply Inv_conn_step with (k := k); auto.
-    destruct (Ic _ _ Ek) as [H1 H2 H3 H4 H5]. cinv; discriminate.
+    destruct (Ic _ _ Ek) as [H1 H2 H3 H4 H5 H6 H7 H8]. cinv; discriminate.
   - (* AHostStop *)
     destruct (nth_error (stops s) t) as [[| | |]|] eqn:Et; try discriminate. inversion H; subst; clear H.
     cinv.
@@ -374,13 +394,15 @@ Proof.
     cinv.
     + intros c k Hc. rewrite nth_close_listed in Hc. cbn in Hc.
       destruct (nth_error (conns s) c) as [k0|] eqn:E0; [|discriminate]. cbn in Hc.
-      destruct (Ic _ _ E0) as [H1 H2 H3 H4 H5].
-      destruct (mem c (table s)) eqn:M; inversion Hc; subst; clear Hc.
+      destruct (Ic _ _ E0) as [H1 H2 H3 H4 H5 H6 H7 H8].
+      destruct (mem c (table s) || neg k0) eqn:M; inversion Hc; subst; clear Hc.
       * cinv; discriminate.
-      * constructor; auto. intros _ Hin. apply mem_In in Hin. congruence.
+      * apply orb_false_iff in M as [M Mn]. constructor; auto.
+        -- intros _ Hin. apply mem_In in Hin. congruence.
+        -- intros _ Hn. congruence.
     + intros c Hc. rewrite close_listed_length. auto.
     + intros c Hc. rewrite close_listed_length. auto.
-    + unfold count_live in *. rewrite sumf_close_listed; auto.
+    + unfold count_busy in *. rewrite sumf_close_listed; auto.
     + intros Hr. split; auto. now apply Ir.
     + intros t1 q H1. apply snd_ok_close. eauto.
   - (* AWait *)
@@ -404,7 +426,7 @@ Proof.
       * intros Hin. specialize (Ial _ Hin). lia.
     + intros c Hc. rewrite app_length. cbn. specialize (It _ Hc). lia.
     + intros c Hc. rewrite app_length. cbn. specialize (Ial _ Hc). lia.
-    + unfold count_live. rewrite sumf_app. cbn. unfold count_live in Iw. lia.
+    + unfold count_busy. rewrite sumf_app. cbn. unfold count_busy in Iw. lia.
     + intros t1 q H1. apply nth_upd_cases in H1 as [[-> ->]|[_ H1]].
       * cbn. eexists. rewrite nth_error_app2, Nat.sub_diag by lia. cbn. split; eauto.
       * apply snd_ok_app. eauto.
@@ -431,38 +453,79 @@ Proof.
   - (* ASendIdOk *)
     destruct (nth_error (conns s) c) as [k|] eqn:Ek; [|discriminate].
     destruct (setup k) eqn:Es; try discriminate. inversion H; subst; clear H.
-    destruct (Ic _ _ Ek) as [H1 H2 H3 H4 H5]. rewrite Es in H3.
+    destruct (Ic _ _ Ek) as [H1 H2 H3 H4 H5 H6 H7 H8]. rewrite Es in H3.
     apply Inv_conn_step with (k := k); auto.
     cinv. rewrite H3. intros [E|[E|E]]; discriminate.
   - (* ASendIdFail *)
     destruct (nth_error (conns s) c) as [k|] eqn:Ek; [|discriminate].
     destruct (setup k) eqn:Es; try discriminate.
     destruct (lopen k && popen k); [discriminate|]. inversion H; subst; clear H.
-    destruct (Ic _ _ Ek) as [H1 H2 H3 H4 H5]. rewrite Es in H3.
+    destruct (Ic _ _ Ek) as [H1 H2 H3 H4 H5 H6 H7 H8]. rewrite Es in H3.
     apply give_up_inv; auto.
+  - (* ABegin *)
+    destruct (nth_error (conns s) c) as [k|] eqn:Ek; [|discriminate].
+    destruct (setup k) eqn:Es; try discriminate.
+    destruct (Ic _ _ Ek) as [H1 H2 H3 H4 H5 H6 H7 H8]. rewrite Es in H3.
+    pose proof (H8 Es) as Hng.
+    destruct (f43 fx) eqn:E4; [destruct (closed s) eqn:Ecl|]; inversion H; subst; clear H.
+    + (* the router is closed: refused and closed *)
+      apply Inv_conn_step with (k := k); auto. cinv; try discriminate.
+      rewrite H3. intros [E|[E|E]]; discriminate.
+    + (* recorded in Router.negotiating, wait-group slot taken *)
+      constructor; cbn; auto.
+      * intros c1 k1 Hc. conn_cases Hc; [|apply (inv_conn _ _ I); auto].
+        cinv; try discriminate; try (intros E; congruence).
+        rewrite H3. intros [E|[E|E]]; discriminate.
+      * intros c1 Hc. rewrite upd_length. auto.
+      * intros c1 Hc. rewrite upd_length. auto.
+      * unfold count_busy in *. pose proof (sumf_upd wgf _ _ _ (set_neg (set_setup k IRecvId) true) Ek) as E.
+        unfold wgf in E at 2 4. cbn in E. rewrite Hng in E. cbn in E. lia.
+      * intros Hr. destruct (Ir Hr). congruence.
+      * apply (inv_listen _ _ I).
+      * apply (inv_stops _ _ I).
+      * intros t p Ht. eapply snd_ok_upd; eauto. cbn. rewrite Es. discriminate.
+    + (* pinned code: nothing is recorded *)
+      apply Inv_conn_step with (k := k); auto; [|cbn; rewrite Es; discriminate].
+      cinv; try discriminate. rewrite H3. intros [E|[E|E]]; discriminate.
+  - (* AEnd *)
+    destruct (nth_error (conns s) c) as [k|] eqn:Ek; [|discriminate].
+    destruct (neg k && setup_done (setup k)) eqn:En; [|discriminate].
+    apply andb_true_iff in En as [Hng Hsd].
+    destruct (Ic _ _ Ek) as [H1 H2 H3 H4 H5 H6 H7 H8].
+    pose proof (neg_count_pos _ _ _ Ek Hng) as P. rewrite <- Iw in P.
+    destruct (wg s) as [|n] eqn:Ew; [lia|]. inversion H; subst; clear H.
+    constructor; cbn; auto.
+    + intros c1 k1 Hc. conn_cases Hc; auto.
+      cinv. intros _ Hn. destruct (setup k); discriminate.
+    + intros c1 Hc. rewrite upd_length. auto.
+    + intros c1 Hc. rewrite upd_length. auto.
+    + unfold count_busy in *. pose proof (sumf_upd wgf _ _ _ (set_neg k false) Ek) as E.
+      unfold wgf in E at 2 4. cbn in E. rewrite Hng in E. cbn in E. lia.
+    + intros Hr. destruct (Ir Hr). lia.
+    + intros t p Ht. eapply snd_ok_upd; eauto.
   - (* ARecvIdOk *)
     destruct (nth_error (conns s) c) as [k|] eqn:Ek; [|discriminate].
     destruct (setup k) eqn:Es; try discriminate.
     destruct (lopen k); [|discriminate]. inversion H; subst; clear H.
-    destruct (Ic _ _ Ek) as [H1 H2 H3 H4 H5]. rewrite Es in H3.
+    destruct (Ic _ _ Ek) as [H1 H2 H3 H4 H5 H6 H7 H8]. rewrite Es in H3.
     apply Inv_conn_step with (k := k); auto; [|cbn; rewrite Es; discriminate].
     cinv. rewrite H3. intros [E|[E|E]]; discriminate.
   - (* ARecvIdFail *)
     destruct (nth_error (conns s) c) as [k|] eqn:Ek; [|discriminate].
     destruct (setup k) eqn:Es; try discriminate. inversion H; subst; clear H.
-    destruct (Ic _ _ Ek) as [H1 H2 H3 H4 H5]. rewrite Es in H3.
+    destruct (Ic _ _ Ek) as [H1 H2 H3 H4 H5 H6 H7 H8]. rewrite Es in H3.
     apply Inv_conn_step with (k := k); auto.
     cinv; try discriminate. rewrite H3. intros [E|[E|E]]; discriminate.
   - (* ACheckPeer *)
     destruct (nth_error (conns s) c) as [k|] eqn:Ek; [|discriminate].
     destruct (setup k) eqn:Es; try discriminate.
-    destruct (Ic _ _ Ek) as [H1 H2 H3 H4 H5]. rewrite Es in H3.
+    destruct (Ic _ _ Ek) as [H1 H2 H3 H4 H5 H6 H7 H8]. rewrite Es in H3.
     destruct v; inversion H; subst; clear H; apply Inv_conn_step with (k := k); auto;
       try (cbn; rewrite Es; discriminate);
       cinv; try discriminate; rewrite H3; intros [E|[E|E]]; discriminate.
   - (* ARegister *)
     destruct (nth_error (conns s) c) as [k|] eqn:Ek; [|discriminate].
-    destruct (Ic _ _ Ek) as [H1 H2 H3 H4 H5].
+    destruct (Ic _ _ Ek) as [H1 H2 H3 H4 H5 H6 H7 H8].
     assert (Hreg : setup k = ORegister \/ setup k = IRegister).
     { destruct (setup k); try discriminate; auto. }
     assert (Hh : hd k = HNone) by (destruct Hreg as [E|E]; rewrite E in H3; auto).
@@ -478,25 +541,26 @@ Proof.
       cinv.
       * intros c1 k1 Hc. conn_cases Hc.
         -- cinv; try discriminate.
-           ++ intros E; congruence.
            ++ intros _. left. destruct Hx as [E|E]; rewrite E; reflexivity.
            ++ destruct Hx as [E|E]; rewrite E; auto.
            ++ intros _. apply in_or_app. right. now left.
            ++ intros Hin. specialize (H5 Hin). destruct Hreg as [E|E]; congruence.
+           ++ intros F Hn. apply H6; auto. destruct Hreg as [E|E]; rewrite E; [|reflexivity].
+              unfold x in Hn. rewrite E in Hn. discriminate.
+           ++ intros E. destruct Hx as [E'|E']; congruence.
         -- rewrite Ecl. apply CInv_tbl_add. auto.
       * intros c1 Hc. rewrite upd_length. apply in_app_or in Hc as [Hc|[<-|[]]]; auto.
         eapply nth_error_lt; eauto.
       * intros c1 Hc. rewrite upd_length. auto.
-      * unfold count_live in *. pose proof (sumf_upd livef _ _ _ (set_setup k x) Ek) as E.
-        unfold livef in E at 2 4. cbn in E. lia.
+      * unfold count_busy in *. pose proof (sumf_upd wgf _ _ _ (set_setup k x) Ek) as E.
+        unfold wgf in E at 2 4. cbn in E. lia.
       * intros Hr. destruct (Ir Hr). congruence.
-      * apply (inv_listen _ _ I).
       * apply (inv_stops _ _ I).
       * intros t p Ht. eapply snd_ok_upd; eauto. cbn. intros D.
         destruct Hreg as [E|E]; rewrite E in D; try discriminate. unfold x. rewrite E. reflexivity.
   - (* ALaunch *)
     destruct (nth_error (conns s) c) as [k|] eqn:Ek; [|discriminate].
-    destruct (Ic _ _ Ek) as [H1 H2 H3 H4 H5].
+    destruct (Ic _ _ Ek) as [H1 H2 H3 H4 H5 H6 H7 H8].
     assert (Hl : setup k = OLaunch \/ setup k = ILaunch).
     { destruct (setup k); try discriminate; auto. }
     assert (Hh : hd k = HNone) by (destruct Hl as [E|E]; rewrite E in H3; auto).
@@ -512,36 +576,35 @@ Proof.
         intros Hin. specialize (H5 Hin). destruct Hl as [E|E]; congruence.
       * intros c1 Hc. rewrite upd_length. auto.
       * intros c1 Hc. rewrite upd_length. auto.
-      * unfold count_live in *. pose proof (sumf_upd livef _ _ _ (set_hd (set_setup k SetupOk) HRecv) Ek) as E.
-        unfold livef in E at 2 4. cbn in E. rewrite Hh in E. cbn in E. lia.
+      * unfold count_busy in *. pose proof (sumf_upd wgf _ _ _ (set_hd (set_setup k SetupOk) HRecv) Ek) as E.
+        unfold wgf in E at 2 4. cbn in E. rewrite Hh in E. cbn in E. lia.
       * intros Hr. destruct (Ir Hr). congruence.
-      * apply (inv_listen _ _ I).
       * apply (inv_stops _ _ I).
       * intros t p Ht. eapply snd_ok_upd; eauto.
   - (* AHRecvMsg *)
     destruct (nth_error (conns s) c) as [k|] eqn:Ek; [|discriminate].
     destruct (hd k) eqn:Eh; try discriminate.
     destruct (lopen k); [|discriminate]. inversion H; subst; clear H.
-    destruct (Ic _ _ Ek) as [H1 H2 H3 H4 H5]. rewrite Eh in *.
+    destruct (Ic _ _ Ek) as [H1 H2 H3 H4 H5 H6 H7 H8]. rewrite Eh in *.
     apply Inv_conn_step with (k := k); auto; [|cbn; now rewrite Eh].
     cinv. destruct (setup k); auto; discriminate.
   - (* AHRecvErr *)
     destruct (nth_error (conns s) c) as [k|] eqn:Ek; [|discriminate].
     destruct (hd k) eqn:Eh; try discriminate.
     destruct (lopen k && popen k); [discriminate|]. inversion H; subst; clear H.
-    destruct (Ic _ _ Ek) as [H1 H2 H3 H4 H5]. rewrite Eh in *.
+    destruct (Ic _ _ Ek) as [H1 H2 H3 H4 H5 H6 H7 H8]. rewrite Eh in *.
     apply Inv_conn_step with (k := k); auto; [|cbn; now rewrite Eh].
     cinv. destruct (setup k); auto; discriminate.
   - (* AHTimeout *)
     destruct (nth_error (conns s) c) as [k|] eqn:Ek; [|discriminate].
     destruct (hd k) eqn:Eh; try discriminate. inversion H; subst; clear H.
-    destruct (Ic _ _ Ek) as [H1 H2 H3 H4 H5]. rewrite Eh in *.
+    destruct (Ic _ _ Ek) as [H1 H2 H3 H4 H5 H6 H7 H8]. rewrite Eh in *.
     apply Inv_conn_step with (k := k); auto; [|cbn; now rewrite Eh].
     cinv. destruct (setup k); auto; discriminate.
   - (* AHCheck *)
     destruct (nth_error (conns s) c) as [k|] eqn:Ek; [|discriminate].
     destruct (hd k) as [| |x| | | | |] eqn:Eh; try discriminate.
-    destruct (Ic _ _ Ek) as [H1 H2 H3 H4 H5]. rewrite Eh in *.
+    destruct (Ic _ _ Ek) as [H1 H2 H3 H4 H5 H6 H7 H8]. rewrite Eh in *.
     assert (Hs : setup k = SetupOk) by (destruct (setup k); auto; discriminate).
     destruct (closed s) eqn:Ecl; [|destruct x as [m|]]; inversion H; subst; clear H;
       (apply Inv_conn_step with (k := k); auto; [|cbn; now rewrite Eh]);
@@ -549,7 +612,7 @@ Proof.
   - (* AHDispatch *)
     destruct (nth_error (conns s) c) as [k|] eqn:Ek; [|discriminate].
     destruct (hd k) as [| | |m| | | |] eqn:Eh; try discriminate. inversion H; subst; clear H.
-    destruct (Ic _ _ Ek) as [H1 H2 H3 H4 H5]. rewrite Eh in *.
+    destruct (Ic _ _ Ek) as [H1 H2 H3 H4 H5 H6 H7 H8]. rewrite Eh in *.
     assert (Hs : setup k = SetupOk) by (destruct (setup k); auto; discriminate).
     assert (Hnr : stop_returned s = false).
     { destruct (stop_returned s) eqn:E; auto. destruct (Ir eq_refl) as [_ W].
@@ -563,14 +626,14 @@ Proof.
   - (* AHExitClose *)
     destruct (nth_error (conns s) c) as [k|] eqn:Ek; [|discriminate].
     destruct (hd k) eqn:Eh; try discriminate. inversion H; subst; clear H.
-    destruct (Ic _ _ Ek) as [H1 H2 H3 H4 H5]. rewrite Eh in *.
+    destruct (Ic _ _ Ek) as [H1 H2 H3 H4 H5 H6 H7 H8]. rewrite Eh in *.
     assert (Hs : setup k = SetupOk) by (destruct (setup k); auto; discriminate).
     apply Inv_conn_step with (k := k); auto; [|cbn; now rewrite Eh].
     cinv; try discriminate. rewrite Hs. discriminate.
   - (* AHExitDone *)
     destruct (nth_error (conns s) c) as [k|] eqn:Ek; [|discriminate].
     destruct (hd k) eqn:Eh; try discriminate.
-    destruct (Ic _ _ Ek) as [H1 H2 H3 H4 H5]. rewrite Eh in *.
+    destruct (Ic _ _ Ek) as [H1 H2 H3 H4 H5 H6 H7 H8]. rewrite Eh in *.
     assert (Hs : setup k = SetupOk) by (destruct (setup k); auto; discriminate).
     pose proof (live_count_pos _ _ _ Ek) as P. rewrite Eh in P. specialize (P eq_refl).
     destruct (wg s) as [|n] eqn:Ew; [lia|]. inversion H; subst; clear H.
@@ -582,14 +645,14 @@ Proof.
              unfold setting_up in E; rewrite Hs in E; discriminate).
     + intros c1 Hc. rewrite upd_length. auto.
     + intros c1 Hc. rewrite upd_length. auto.
-    + unfold count_live in *. pose proof (sumf_upd livef _ _ _ (set_hd k HExitRemove) Ek) as E.
-      unfold livef in E at 2 4. cbn in E. rewrite Eh in E. cbn in E. lia.
+    + unfold count_busy in *. pose proof (sumf_upd wgf _ _ _ (set_hd k HExitRemove) Ek) as E.
+      unfold wgf in E at 2 4. cbn in E. rewrite Eh in E. cbn in E. lia.
     + intros Hr. destruct (Ir Hr). lia.
     + intros t p Ht. eapply snd_ok_upd; eauto.
   - (* AHExitRemove *)
     destruct (nth_error (conns s) c) as [k|] eqn:Ek; [|discriminate].
     destruct (hd k) eqn:Eh; try discriminate. inversion H; subst; clear H.
-    destruct (Ic _ _ Ek) as [H1 H2 H3 H4 H5]. rewrite Eh in *.
+    destruct (Ic _ _ Ek) as [H1 H2 H3 H4 H5 H6 H7 H8]. rewrite Eh in *.
     assert (Hs : setup k = SetupOk) by (destruct (setup k); auto; discriminate).
     cinv.
     + intros c1 k1 Hc. conn_cases Hc.
@@ -601,8 +664,8 @@ Proof.
       * apply CInv_tbl_remove; auto.
     + intros c1 Hc. rewrite upd_length. apply In_remove_swap in Hc. apply It. tauto.
     + intros c1 Hc. rewrite upd_length. auto.
-    + unfold count_live in *. pose proof (sumf_upd livef _ _ _ (set_hd k HDead) Ek) as E.
-      unfold livef in E at 2 4. cbn in E. rewrite Eh in E. cbn in E. lia.
+    + unfold count_busy in *. pose proof (sumf_upd wgf _ _ _ (set_hd k HDead) Ek) as E.
+      unfold wgf in E at 2 4. cbn in E. rewrite Eh in E. cbn in E. lia.
     + intros t p Ht. eapply snd_ok_upd; eauto.
 Qed.
 
@@ -630,9 +693,19 @@ Proof.
   destruct (sumf_zero_ex _ _ N) as (c & k & Hc & Hk). specialize (H _ _ Hc). congruence.
 Qed.
 
-Lemma no_live_when_zero cs c k : count_live cs = 0 -> nth_error cs c = Some k -> live (hd k) = false.
+Lemma no_live_when_zero cs c k : count_busy cs = 0 -> nth_error cs c = Some k -> live (hd k) = false.
 Proof.
   intros Z H. destruct (live (hd k)) eqn:L; auto. pose proof (live_count_pos _ _ _ H L). lia.
+Qed.
+
+Lemma no_neg_when_zero cs c k : count_busy cs = 0 -> nth_error cs c = Some k -> neg k = false.
+Proof.
+  intros Z H. destruct (neg k) eqn:L; auto. pose proof (neg_count_pos _ _ _ H L). lia.
+Qed.
+
+Lemma busy_zero_live cs : count_busy cs = 0 -> count_live cs = 0.
+Proof.
+  intros Z. apply sumf_all_zero. intros c k H. unfold livef. now rewrite (no_live_when_zero _ _ _ Z H).
 Qed.
 
 Lemma holding_live h : holding h = true -> live h = true.
@@ -651,21 +724,22 @@ Proof.
   intros R Q. pose proof (reachable_inv _ _ _ R) as I.
   unfold quiescent in Q. apply andb_true_iff in Q as [Q Qc]. 
   assert (D : forall c k, nth_error (conns s) c = Some k ->
-                          setup_done (setup k) = true /\ handler_done (hd k) = true).
-  { intros c k H. pose proof (forallb_nth _ _ _ _ Qc H) as B. now apply andb_true_iff in B. }
+                          setup_done (setup k) = true /\ handler_done (hd k) = true /\ neg k = false).
+  { intros c k H. pose proof (forallb_nth _ _ _ _ Qc H) as B. apply andb_true_iff in B as [B Bn].
+    apply andb_true_iff in B as [B1 B2]. repeat split; auto. now apply negb_true_iff in Bn. }
   split.
-  - intros c k H L. destruct (D _ _ H) as [D1 D2]. destruct (inv_conn _ _ I _ _ H) as [H1 H2 H3 H4 H5].
+  - intros c k H L. destruct (D _ _ H) as (D1 & D2 & D3). destruct (inv_conn _ _ I _ _ H) as [H1 H2 H3 H4 H5 H6 H7 H8].
     destruct (H2 L) as [E|[E|E]].
     + unfold setting_up in E. rewrite D1 in E. discriminate.
     + destruct (hd k); discriminate.
     + auto.
-  - rewrite (inv_wg _ _ I). apply sumf_all_zero. intros c k H. destruct (D _ _ H) as [_ D2].
-    unfold livef. destruct (hd k); try discriminate; reflexivity.
+  - rewrite (inv_wg _ _ I). apply sumf_all_zero. intros c k H. destruct (D _ _ H) as (_ & D2 & D3).
+    unfold wgf. rewrite D3. destruct (hd k); try discriminate; reflexivity.
 Qed.
 
 (* with the repair of F11 nothing is ever abandoned *)
-Theorem all_closed acts s :
-  run true init acts = Some s -> quiescent s = true ->
+Theorem all_closed f4 acts s :
+  run (mkFx true f4) init acts = Some s -> quiescent s = true ->
   (forall c k, nth_error (conns s) c = Some k -> lopen k = false) /\ wg s = 0.
 Proof.
   intros R Q. destruct (all_closed_except_abandoned _ _ _ R Q) as [A W]. split; auto.
@@ -682,7 +756,7 @@ Definition witness_out : list action :=
    ACallStop; AHostStop 0; ACloseAll 0; AWait 0;
    ARegister 0; AConnReturn 0].
 Definition witness_in : list action :=
-  [AIncoming 1; ARecvIdOk 0;
+  [AIncoming 1; ABegin 0; ARecvIdOk 0;
    ACallStop; AHostStop 0; ACloseAll 0; AWait 0;
    ACheckPeer 0 true; ARegister 0].
 Definition witness_after : list action :=
@@ -690,7 +764,7 @@ Definition witness_after : list action :=
    ACallSend 1; ALookup 0; ADialOk 0; ASendIdOk 0; ARegister 0; AConnReturn 0].
 
 Definition leaks (acts : list action) : Prop :=
-  exists s, run false init acts = Some s /\ stop_returned s = true /\ quiescent s = true /\
+  exists s, run (mkFx false false) init acts = Some s /\ stop_returned s = true /\ quiescent s = true /\
             open_conns s = [0] /\ crashed s = false.
 
 Theorem abandoned_conn_refuted : leaks witness_out /\ leaks witness_in /\ leaks witness_after.
@@ -699,10 +773,29 @@ Proof. repeat split; eexists; (split; [vm_compute; reflexivity|]); repeat split;
 (* the same schedules with the repair: the connection is closed *)
 Theorem witnesses_closed_when_fixed :
   forall acts, In acts [witness_out; witness_in; witness_after] ->
-  exists s, run true init acts = Some s /\ quiescent s = true /\ open_conns s = [].
+  exists s, run (mkFx true false) init acts = Some s /\ quiescent s = true /\ open_conns s = [].
 Proof.
   intros acts [<-|[<-|[<-|[]]]]; eexists; (split; [vm_compute; reflexivity|]); split; vm_compute; reflexivity.
 Qed.
+
+(* F43: an accepted connection whose peer has not identified itself survives Stop in the
+   code without the negotiating set (even with the repair of F11) ... *)
+Definition witness_silent : list action :=
+  [AIncoming 1; ABegin 0; ACallStop; AHostStop 0; ACloseAll 0; AWait 0].
+
+Theorem silent_inbound_refuted :
+  exists s k, run (mkFx true false) init witness_silent = Some s /\ stop_returned s = true /\
+              nth_error (conns s) 0 = Some k /\ lopen k = true /\ setup k = IRecvId.
+Proof. eexists. eexists. split; [vm_compute; reflexivity|]. repeat split. Qed.
+
+(* ... with it, that Stop cannot return before the callback has: Stop closes the
+   connection, receiveServerIdentity fails, the callback ends, then Stop returns *)
+Theorem silent_inbound_fixed :
+  run (mkFx true true) init witness_silent = None /\
+  exists s, run (mkFx true true) init
+              [AIncoming 1; ABegin 0; ACallStop; AHostStop 0; ACloseAll 0; ARecvIdFail 0; AEnd 0; AWait 0] = Some s /\
+            stop_returned s = true /\ quiescent s = true /\ open_conns s = [].
+Proof. split; [vm_compute; reflexivity|]. eexists. split; [vm_compute; reflexivity|]. repeat split. Qed.
 
 (* ---- at the instant Stop returns ------------------------------------------ *)
 
@@ -714,12 +807,12 @@ Theorem registered_closed_at_return fx acts s :
   (forall c k, nth_error (conns s) c = Some k -> live (hd k) = false).
 Proof.
   intros R Hr. pose proof (reachable_inv _ _ _ R) as I. destruct (inv_ret _ _ I Hr) as [Hc Hw].
-  assert (Z : count_live (conns s) = 0) by (rewrite <- (inv_wg _ _ I); auto).
+  assert (Z : count_busy (conns s) = 0) by (rewrite <- (inv_wg _ _ I); auto).
   repeat split; auto.
   - apply (inv_listen _ _ I); auto.
-  - intros c k Hin H. apply (ci_j1 _ _ _ _ _ (inv_conn _ _ I _ _ H)); auto.
+  - intros c k Hin H. apply (ci_j1 _ _ _ _ _ _ (inv_conn _ _ I _ _ H)); auto.
   - intros c k H Hs. destruct (lopen k) eqn:L; auto.
-    destruct (inv_conn _ _ I _ _ H) as [H1 H2 H3 H4 H5]. destruct (H2 L) as [E|[E|E]].
+    destruct (inv_conn _ _ I _ _ H) as [H1 H2 H3 H4 H5 H6 H7 H8]. destruct (H2 L) as [E|[E|E]].
     + unfold setting_up in E. rewrite Hs in E. discriminate.
     + apply holding_live in E. rewrite (no_live_when_zero _ _ _ Z H) in E. discriminate.
     + specialize (H5 E). congruence.
@@ -779,7 +872,7 @@ Qed.
 
 Theorem no_handler_starts_after_close fx acts s a s' :
   run fx init acts = Some s -> closed s = true -> step fx s a = Some s' ->
-  count_live (conns s') <= count_live (conns s).
+  count_busy (conns s') <= count_busy (conns s).
 Proof.
   intros R Hc H. pose proof (reachable_inv _ _ _ R) as I. pose proof (step_inv _ _ _ _ I H) as I'.
   rewrite <- (inv_wg _ _ I), <- (inv_wg _ _ I'). eapply wg_noninc; eauto.
@@ -810,7 +903,7 @@ Lemma handler_progress fx s c k :
                sumf hmf (conns s') < sumf hmf (conns s) /\
                closed s' = true /\ stops s' = stops s /\ senders s' = senders s.
 Proof.
-  intros I Hc Hk L. destruct (inv_conn _ _ I _ _ Hk) as [H1 H2 H3 H4 H5].
+  intros I Hc Hk L. destruct (inv_conn _ _ I _ _ Hk) as [H1 H2 H3 H4 H5 H6 H7 H8].
   assert (Hin : In c (table s)) by auto. specialize (H1 Hc Hin).
   assert (M : forall k', sumf hmf (upd (conns s) c k') + hmf k = sumf hmf (conns s) + hmf k').
   { intros k'. apply sumf_upd; auto. }
